@@ -18,8 +18,11 @@ claim('C03',
 claim('C10',
       "Unbounded proof of the eight mpn logic functions and mpn_com (pointwise at an arbitrary ghost limb, every permitted overlap) and of "
       "mpn_scan0/scan1 (first 0/1 bit at or after the start, all earlier bits have the other value, at a ghost bit position).",
+      " mpz_tstbit, mpz_scan0, mpz_scan1 against the infinite two's-complement limb function (ghost lowest-non-zero-limb index), incl. the 'no such "
+      "bit' answers; mpz_com as ~x = -x-1 on limb chains.",
       TB + "NOT decided: the value returned by mpn_popcount/mpn_hamdist (SWAR adder tree: SAT time-out; only their memory safety, frame and "
-      "termination are proved) and the whole mpz bitwise layer (mpz_and/ior/xor/com/setbit/... two's-complement view): no unit yet.")
+      "termination are proved); mpz_and/ior/xor/setbit/clrbit/combit/popcount/hamdist: no unit. The ghost g_lz of the mpz units is defined by a "
+      "forall that is instantiated by woven assumes at the limbs each loop iteration reads (listed in the evidence).")
 claim('C11',
       "Full-domain proofs (loop-free code, all 2^64 limb values, all sizes and allocations) that mpz_cmp_ui/_si, mpz_cmpabs_ui, the eight "
       "mpz_fits_*_p, mpz_get_ui/si/ux/sx and mpz_set_ui/si/ux/sx agree with exact 128-bit arithmetic (predicates true exactly on the "
@@ -57,13 +60,19 @@ claim('C15',
 claim('C01',
       "Unbounded proof (all lengths, all limb contents, rp==up overlap) that mpn_mul_1, mpn_addmul_1 and mpn_submul_1 - the generic C kernels this "
       "build links - satisfy the product carry chain r[k] + co*B = (r0[k] +/-) u[k]*v + ci at every position, incl. the returned high limb, "
-      "relative to the machine word multiply (mulq as an uninterpreted hi/lo pair).",
-      TB + "NOT decided: mpn_mul/mul_n/sqr and every algorithm above one row (schoolbook accumulation, Karatsuba, Toom, FFT), mpz_mul, mpz_mul_ui/si, "
-      "mpz_addmul/submul: they need mathematical integers / polynomial identities that CBMC's bit-vector logic cannot express; no unit exists for them.")
+      "relative to the machine word multiply (mulq as an uninterpreted hi/lo pair). mpz_mul (every partition in which the result aliases an operand or "
+      "the operands alias each other): sign, size, zero short-cut, reallocation with the old block freed at its exact size, faithful temporary copies, "
+      "operand order and non-overlap preconditions of the multi-limb multipliers, no leak - over ASSUMED shape contracts of mpn_mul/sqr/basecase.",
+      TB + "NOT decided: the VALUE computed by mpn_mul/mul_n/sqr and every algorithm above one row (schoolbook accumulation, Karatsuba, Toom, FFT) - they "
+      "need mathematical integers / polynomial identities that CBMC's bit-vector logic cannot express; mpz_mul with three distinct arguments (no solver "
+      "verdict, DESIGN 11.3), mpz_mul_ui/si, mpz_addmul/submul: no unit.")
 claim('C02',
       "Glue proofs over ASSUMED truncating division: for every value and every permitted aliasing of (q, r, n, d), mpz_fdiv_qr/q/r, mpz_cdiv_qr/q/r and "
       "mpz_mod return exactly the manual's floor/ceiling/non-negative quotient and remainder expressed through the truncating pair (adjust iff the "
-      "remainder is non-zero and the signs differ / agree), keep a temporary copy of the divisor when it is an output, and raise DIVIDE_BY_ZERO iff d == 0.",
+      "remainder is non-zero and the signs differ / agree), keep a temporary copy of the divisor when it is an output, and raise DIVIDE_BY_ZERO iff d == 0. "
+      "mpz_tdiv_qr (six partitions in which an output aliases an input or n == d): limb-level glue over an ASSUMED shape contract of mpn_tdiv_qr - "
+      "|n| < |d| short-cut, temporary copies, the divider sees the original operand limbs, normal divisor top limb, non-overlap, quotient/remainder "
+      "sizes and signs, well-formed results.",
       TB + "mpz_tdiv_qr/q/r are ASSUMED (uninterpreted quotient/remainder with sgn r in {0, sgn n}, |r| < |d|); values are 64-bit tokens for the interpreted "
       "+/- steps. NOT covered: the truncating family itself, all _ui and _2exp forms, mpn_tdiv_qr/divrem/divrem_1/mod_1, divexact/divisible/congruent, "
       "and the word-division primitives (undecided by SAT, DESIGN 8).", technique='contract-based glue proof against assumed callee contracts (value tokens, CBMC)')
